@@ -47,9 +47,10 @@ def main():
     if os.path.exists(demo):
         shutil.copy(demo, os.path.join(out, "DEMO.py"))
         rc1, o1 = sh("/venv/bin/python DEMO.py", cwd=wt)
-        sh("git stash", cwd=wt)
+        # (not `git stash`: the stash stack is shared by all worktrees of a repository, so parallel evaluations cross)
+        sh("git diff -- html5lib > .seed_patch.tmp && git checkout -- html5lib", cwd=wt)
         rc0, o0 = sh("/venv/bin/python DEMO.py", cwd=wt)
-        sh("git stash pop", cwd=wt)
+        sh("git apply .seed_patch.tmp && rm -f .seed_patch.tmp", cwd=wt)
         meta["confirmed"]["demo_with_change"] = {"exit": rc1, "tail": o1.strip()[-300:]}
         meta["confirmed"]["demo_without_change"] = {"exit": rc0, "tail": o0.strip()[-300:]}
         demo_ok = rc1 != 0 and rc0 == 0
